@@ -94,16 +94,20 @@ def rules(ctx: Ctx) -> None:
     gcl = prog.cls("core.holders.ColumnLineageMixin").methods.get("get_column_lineage")
     ctx.touched(gcl)
     fl = flow(prog, gcl)
-    adds = [k for k in prog.walk_fn(gcl) if isinstance(k, ast.Call) and isinstance(k.func, ast.Attribute) and k.func.attr == "add" and k.args and "path" in u(k.args[0])]
+    # insertions of a path into the result: <set>.add(tuple(<path>)) where <path> comes from all_simple_paths
+    adds = [k for k in prog.walk_fn(gcl) if isinstance(k, ast.Call) and isinstance(k.func, ast.Attribute) and k.func.attr == "add" and k.args
+            and isinstance(k.args[0], ast.Call) and isinstance(k.args[0].func, ast.Name) and k.args[0].func.id == "tuple" and k.args[0].args and isinstance(k.args[0].args[0], ast.Name)]
     ctx.floor("insertions into the result set of get_column_lineage", len(adds), 1)
     for k in adds:
         facts = fl.facts_for(k)
-        ok = any(p and t in ("len(path) > 1", "len(path) >= 2") for t, p in facts) or any((not p) and t in ("len(path) <= 1", "len(path) < 2", "len(path) == 1") for t, p in facts)
+        pv = k.args[0].args[0].id
+        ok = any(p and t in (f"len({pv}) > 1", f"len({pv}) >= 2") for t, p in facts) or any((not p) and t in (f"len({pv}) <= 1", f"len({pv}) < 2", f"len({pv}) == 1") for t, p in facts)
         ctx.ob("R06.3", "paths-have-at-least-one-hop", ok, loc(gcl.mod, k), f"`{u(k)}` must be dominated by a proof that the path has more than one node (all_simple_paths yields [source] when source is target)")
     # roots and leaves are chosen on the column sub-graph
+    import re as _re
     txt = u(gcl.node)
-    ctx.ob("R06.3", "roots-have-no-incoming-leaves-no-outgoing", "in_degree" in txt and "out_degree" in txt and "deg == 0" in txt, gcl.loc(), "paths start at columns nothing feeds and end at columns feeding nothing", trivial=True)
-    ctx.ob("R06.3", "paths-end-at-columns-of-written-tables", "isinstance(node.parent, Table)" in txt, gcl.loc(), "by default only paths ending at a column owned by a Table are reported")
+    ctx.ob("R06.3", "roots-have-no-incoming-leaves-no-outgoing", "in_degree" in txt and "out_degree" in txt and bool(_re.search(r"\w+ == 0", txt)), gcl.loc(), "paths start at columns nothing feeds and end at columns feeding nothing", trivial=True)
+    ctx.ob("R06.3", "paths-end-at-columns-of-written-tables", bool(_re.search(r"isinstance\(\w+\.parent, Table\)", txt)), gcl.loc(), "by default only paths ending at a column owned by a Table are reported")
 
     # ---- R06.4 identity --------------------------------------------------------------------------------------
     ids = identities(prog)
